@@ -806,17 +806,12 @@ class UnaryOp(Expr):
         else:
             raise InternalError('Unknown unary operator')
 
-        if self.arg.type == Type.INTEGER:
-            max_positive_int = 2**15 - 1
-            max_negative_int = -2**15
-        else:
-            max_positive_int = 2**31 - 1
-            max_negative_int = -2**31
+        # like a binary operation, a result the type cannot hold is an
+        # overflow (left to be reported at run time), not a clamped value
+        if not self.type.can_hold(value):
+            raise OverflowError
 
-        if value > max_positive_int or value < max_negative_int:
-            value = max_negative_int
-
-        return value
+        return self.type.coerce(value)
 
 
 class Lvalue(Expr):
